@@ -422,10 +422,15 @@ def walk(fa, targets, avoid=(), cap=20000):
                 continue
             alts = [[]]
             if nd.kind == "test" and l in ("T", "F") and not loop:
-                memo = fa.__dict__.setdefault("_pm_cases", {})
-                if (n, l) not in memo:
-                    memo[(n, l)] = cases(fa, nd.ast, n, l == "T")
-                alts = memo[(n, l)]
+                flagged = _flags_on_trail(fa, nd.ast, n, trail)
+                if flagged is not None:
+                    # a local that holds a verdict and is assigned more than once: read through the value THIS path gave it
+                    alts = cases(fa, flagged, n, l == "T", True)
+                else:
+                    memo = fa.__dict__.setdefault("_pm_cases", {})
+                    if (n, l) not in memo:
+                        memo[(n, l)] = cases(fa, nd.ast, n, l == "T")
+                    alts = memo[(n, l)]
             for add in alts:
                 have = {(x.text, x.pos) for x in lits if x.live}
                 if any((a.text, not a.pos) in have for a in add):
@@ -444,6 +449,41 @@ def walk(fa, targets, avoid=(), cap=20000):
     return out
 
 
+def _flags_on_trail(fa, test, node_id, trail):
+    """`test` with every local that has SEVERAL reaching definitions replaced by the (expanded) value the path
+    assigned it last, when that value is a verdict (comparison / boolean combination / negation / constant / call);
+    None when the test mentions no such local or one of them cannot be resolved on the path."""
+    import copy
+    multi = {x.id for x in ast.walk(test) if isinstance(x, ast.Name) and isinstance(x.ctx, ast.Load) and len(fa.df.reaching(node_id, x.id)) > 1}
+    if not multi:
+        return None
+    last = {}
+    for i in trail:
+        nd = fa.cfg.node(i)
+        if nd.kind == "stmt" and isinstance(nd.ast, (ast.Assign, ast.AnnAssign)):
+            for (t, v) in _flat_targets(nd.ast):
+                if isinstance(t, ast.Name) and t.id in multi:
+                    last[t.id] = (v, i)
+        elif nd.kind in ("for", "with") or (nd.kind == "stmt" and isinstance(nd.ast, (ast.AugAssign, ast.Delete))):
+            for x in ast.walk(nd.ast.target if nd.kind == "for" or isinstance(nd.ast, ast.AugAssign) else nd.ast):
+                if isinstance(x, ast.Name) and isinstance(x.ctx, (ast.Store, ast.Del)) and x.id in multi:
+                    last[x.id] = (None, i)
+    verdict = (ast.Compare, ast.BoolOp, ast.UnaryOp, ast.Constant, ast.Call, ast.IfExp)
+    if any(m not in last or last[m][0] is None or not isinstance(last[m][0], verdict) for m in multi):
+        return None
+    vals = {}
+    for m, (v, i) in last.items():
+        # the value as the path computed it: locals inside it resolved on the trail up to the assignment
+        inner = _flags_on_trail(fa, v, i, trail[:trail.index(i)]) if i in trail else None
+        vals[m] = fa.expand(inner if inner is not None else v, i)
+
+    class T(ast.NodeTransformer):
+        def visit_Name(self, n):
+            return copy.deepcopy(vals[n.id]) if isinstance(n.ctx, ast.Load) and n.id in vals else n
+
+    return T().visit(copy.deepcopy(test))
+
+
 def walrus_bindings(fa, trail):
     """{name: value} bound by `(name := value)` inside the branch tests a path passed (the dataflow only
     sees those of simple statements)."""
@@ -455,3 +495,242 @@ def walrus_bindings(fa, trail):
                 if isinstance(x, ast.NamedExpr) and isinstance(x.target, ast.Name):
                     out[x.target.id] = x.value
     return out
+
+
+# ---- one spelling for constructs that say the same thing --------------------------------------------
+
+def _is_self_assign(st):
+    return isinstance(st, ast.Assign) and len(st.targets) == 1 and A.norm(st.targets[0]) == A.norm(st.value)
+
+
+def _lower_stmt(st, pour_only=False):
+    """One statement -> the statements that spell it with plain branches and loops:
+    `t = a if c else b` / `return a if c else b`  ->  an if statement (self-assignments dropped);
+    `acc.update({k: v for x in it if c})` / `acc |= {...}` / `acc = {k: v for ...}`  ->  a loop storing into acc."""
+    import copy
+
+    def at(new):
+        return ast.fix_missing_locations(ast.copy_location(new, st))
+
+    val = getattr(st, "value", None)
+    if not pour_only and isinstance(st, (ast.Assign, ast.AnnAssign, ast.Return)) and isinstance(val, ast.IfExp) and \
+            (not isinstance(st, ast.Assign) or len(st.targets) == 1):
+        arms = []
+        for br in (val.body, val.orelse):
+            s2 = copy.copy(st)
+            s2.value = br
+            if isinstance(s2, ast.AnnAssign):
+                s2 = ast.Assign(targets=[st.target], value=br, type_comment=None)
+            s2 = at(s2)
+            arms.append([x for x in _lower_stmt(s2) if not _is_self_assign(x)])
+        if not arms[0] and not arms[1]:
+            return []
+        if not arms[0]:
+            return [at(ast.If(test=ast.UnaryOp(op=ast.Not(), operand=val.test), body=arms[1], orelse=[]))]
+        return [at(ast.If(test=val.test, body=arms[0], orelse=arms[1]))]
+    comp = acc = None
+    pre = []
+    if isinstance(st, ast.Expr) and isinstance(val, ast.Call) and isinstance(val.func, ast.Attribute) and val.func.attr == "update" \
+            and A.dotted(val.func.value) and len(val.args) == 1 and not val.keywords and isinstance(val.args[0], ast.DictComp):
+        acc, comp = val.func.value, val.args[0]
+    elif isinstance(st, ast.AugAssign) and isinstance(st.op, ast.BitOr) and isinstance(st.target, ast.Name) and isinstance(val, ast.DictComp):
+        acc, comp = ast.Name(id=st.target.id, ctx=ast.Load()), val
+    elif not pour_only and isinstance(st, ast.Assign) and len(st.targets) == 1 and isinstance(st.targets[0], ast.Name) and isinstance(val, ast.DictComp) \
+            and st.targets[0].id not in {x.id for x in ast.walk(val) if isinstance(x, ast.Name)}:
+        acc, comp = ast.Name(id=st.targets[0].id, ctx=ast.Load()), val
+        pre = [at(ast.Assign(targets=[st.targets[0]], value=ast.Dict(keys=[], values=[]), type_comment=None))]
+    if comp is not None and len(comp.generators) == 1 and not comp.generators[0].is_async:
+        g = comp.generators[0]
+        store = at(ast.Assign(targets=[ast.Subscript(value=acc, slice=comp.key, ctx=ast.Store())], value=comp.value, type_comment=None))
+        body = [store]
+        if g.ifs:
+            body = [at(ast.If(test=g.ifs[0] if len(g.ifs) == 1 else ast.BoolOp(op=ast.And(), values=list(g.ifs)), body=body, orelse=[]))]
+        tgt = copy.deepcopy(g.target)
+        for x in ast.walk(tgt):
+            if isinstance(x, (ast.Name, ast.Tuple, ast.List, ast.Starred)):
+                x.ctx = ast.Store()
+        return pre + [at(ast.For(target=tgt, iter=g.iter, body=body, orelse=[], type_comment=None))]
+    return [st]
+
+
+def _raise_stmt(st):
+    """`for x in it: [if c:] acc.add(e)` (nothing else in the loop) -> `acc.update({e for x in it if c})`
+    (`append` -> `extend([...])`): a loop that only collects is the comprehension it spells out."""
+    if not (isinstance(st, ast.For) and not st.orelse and len(st.body) == 1):
+        return [st]
+    inner, ifs = st.body[0], []
+    while isinstance(inner, ast.If) and not inner.orelse and len(inner.body) == 1:
+        ifs.append(inner.test)
+        inner = inner.body[0]
+    c = inner.value if isinstance(inner, ast.Expr) else None
+    if not (isinstance(c, ast.Call) and isinstance(c.func, ast.Attribute) and c.func.attr in ("add", "append") and isinstance(c.func.value, ast.Name)
+            and len(c.args) == 1 and not c.keywords):
+        return [st]
+    bound = {x.id for x in ast.walk(st.target) if isinstance(x, ast.Name)}
+    if c.func.value.id in bound:
+        return [st]
+    # `if x not in acc: acc.append(x)`: collected once however often it comes -- a set in all but name
+    dedupe = [t for t in ifs if isinstance(t, ast.Compare) and len(t.ops) == 1 and isinstance(t.ops[0], ast.NotIn) and A.norm(t.left) == A.norm(c.args[0])
+              and isinstance(t.comparators[0], ast.Name) and t.comparators[0].id == c.func.value.id]
+    if dedupe:
+        ifs = [t for t in ifs if t not in dedupe]
+    import copy
+    tgt = copy.deepcopy(st.target)
+    for x in ast.walk(tgt):
+        if isinstance(x, (ast.Name, ast.Tuple, ast.List, ast.Starred)):
+            x.ctx = ast.Store()
+    gen = ast.comprehension(target=tgt, iter=st.iter, ifs=ifs, is_async=0)
+    as_set = c.func.attr == "add" or bool(dedupe)
+    comp = (ast.SetComp if as_set else ast.ListComp)(elt=c.args[0], generators=[gen])
+    call = ast.Call(func=ast.Attribute(value=c.func.value, attr="update" if as_set else "extend", ctx=ast.Load()), args=[comp], keywords=[])
+    return [ast.fix_missing_locations(ast.copy_location(ast.Expr(value=call), st))]
+
+
+def _rewrite_blocks(node, one):
+    for f in ("body", "orelse", "finalbody"):
+        blk = getattr(node, f, None)
+        if isinstance(blk, list) and blk and isinstance(blk[0], ast.stmt):
+            new = []
+            for st in blk:
+                if not isinstance(st, (ast.FunctionDef, ast.AsyncFunctionDef, ast.ClassDef)):
+                    _rewrite_blocks(st, one)
+                new += one(st)
+            if not new:
+                new = [ast.fix_missing_locations(ast.copy_location(ast.Pass(), blk[0]))]
+            setattr(node, f, new)
+    for h in getattr(node, "handlers", []) or []:
+        _rewrite_blocks(h, one)
+    for c in getattr(node, "cases", []) or []:
+        _rewrite_blocks(c, one)
+
+
+def _merge_parts(node):
+    """`a = {}` ... a[k] = v ...; `b = {}` ... b[k] = v ...; `t = {**a, **b}` (or dict(a, **b), a | b, t = dict(a); t.update(b))
+    with a and b used for nothing else and filled one after the other in merge order  ->  one mapping t that both
+    passes store into: layering b's entries over a's at the end is storing them on top of a's as they come."""
+    stmts = A.all_stmts(node)
+    pos = {id(st): i for i, st in enumerate(stmts)}
+    pm = A.parent_map(node)
+    occ = {}
+    for x in A.walk_body(node):
+        if isinstance(x, ast.Name):
+            occ.setdefault(x.id, []).append(x)
+
+    def empty(v):
+        return (isinstance(v, ast.Dict) and not v.keys) or (isinstance(v, ast.Call) and isinstance(v.func, ast.Name) and v.func.id == "dict" and not v.args and not v.keywords)
+
+    def part(name):
+        """(init statement, [store statements], the one other use) of a local that is only created empty, stored into and used once"""
+        init, stores, other = None, [], []
+        for x in occ.get(name, []):
+            p_ = pm.get(x)
+            if isinstance(p_, (ast.Assign, ast.AnnAssign)) and (p_.targets[0] if isinstance(p_, ast.Assign) else p_.target) is x and p_.value is not None and empty(p_.value) \
+                    and (not isinstance(p_, ast.Assign) or len(p_.targets) == 1):
+                if init is not None:
+                    return None
+                init = p_
+            elif isinstance(p_, ast.Subscript) and p_.value is x and isinstance(p_.ctx, ast.Store) and isinstance(pm.get(p_), ast.Assign) and len(pm.get(p_).targets) == 1:
+                stores.append(pm.get(p_))
+            else:
+                other.append(x)
+        if init is None or not stores or len(other) != 1:
+            return None
+        return init, stores, other[0]
+
+    def parts_of(e):
+        """names merged by an expression, in the order in which later ones win"""
+        if isinstance(e, ast.Dict) and e.keys and all(k is None for k in e.keys) and all(isinstance(v, ast.Name) for v in e.values):
+            return [v.id for v in e.values]
+        if isinstance(e, ast.BinOp) and isinstance(e.op, ast.BitOr):
+            l, r = parts_of(e.left), parts_of(e.right)
+            return l + r if l and r else None
+        if isinstance(e, ast.Name):
+            return [e.id]
+        if isinstance(e, ast.Call) and isinstance(e.func, ast.Name) and e.func.id == "dict" and len(e.args) == 1 and isinstance(e.args[0], ast.Name) \
+                and all(k.arg is None and isinstance(k.value, ast.Name) for k in e.keywords):
+            return [e.args[0].id] + [k.value.id for k in e.keywords]
+        if isinstance(e, ast.Call) and isinstance(e.func, ast.Attribute) and e.func.attr == "copy" and not e.args and isinstance(e.func.value, ast.Name):
+            return [e.func.value.id]
+        return None
+
+    for st in stmts:
+        if not (isinstance(st, ast.Assign) and len(st.targets) == 1 and isinstance(st.targets[0], ast.Name)):
+            continue
+        t = st.targets[0].id
+        names = parts_of(st.value)
+        if not names or t in names or isinstance(st.value, ast.Name):
+            continue
+        drop = [st]
+        # t.update(b) statements that follow
+        for x in occ.get(t, []):
+            c = pm.get(pm.get(x)) if isinstance(pm.get(x), ast.Attribute) else None
+            if isinstance(c, ast.Call) and c.func is pm.get(x) and c.func.attr == "update" and len(c.args) == 1 and not c.keywords and isinstance(c.args[0], ast.Name) \
+                    and isinstance(pm.get(c), ast.Expr) and pos.get(id(pm.get(c)), -1) > pos[id(st)]:
+                names = names + [c.args[0].id]
+                drop.append(pm.get(c))
+        if len(names) < 2 or len(set(names)) != len(names):
+            continue
+        ps = [part(n_) for n_ in names]
+        if any(p_ is None for p_ in ps):
+            continue
+        if sum(1 for x in occ.get(t, []) if isinstance(x.ctx, ast.Store)) != 1:
+            continue
+        # filled one after the other, in merge order, each before it is merged in
+        ok = True
+        last = -1
+        for (init, stores, use), n_ in zip(ps, names):
+            ss = sorted(pos[id(s_)] for s_ in stores)
+            ok = ok and ss[0] > last and pos[id(init)] < ss[0]
+            last = ss[-1]
+            home = [d_ for d_ in drop if any(y is use for y in ast.walk(d_))]
+            ok = ok and bool(home) and ss[-1] < pos[id(home[0])]
+        if not ok:
+            continue
+        first_init = ps[0][0]
+        removed = {id(d_) for d_ in drop} | {id(p_[0]) for p_ in ps[1:]}
+        for (init, stores, use) in ps:
+            for s_ in stores:
+                s_.targets[0].value = ast.copy_location(ast.Name(id=t, ctx=ast.Load()), s_.targets[0].value)
+        new_init = ast.fix_missing_locations(ast.copy_location(ast.Assign(targets=[ast.Name(id=t, ctx=ast.Store())], value=first_init.value, type_comment=None), first_init))
+
+        def one(x):
+            if x is first_init:
+                return [new_init]
+            return [] if id(x) in removed else [x]
+
+        _rewrite_blocks(node, one)
+        return _merge_parts(node)  # tables are stale: start over for a further merge
+    return node
+
+
+def view(ck, qual_or_fi, how):
+    """The per-function bundle of a function rewritten into ONE spelling, so that a rule reads the same thing
+    whichever way the code says it.  how='branches': conditional expressions that are the whole value of an
+    assignment / return become if statements, dict comprehensions poured into a mapping become loops (the form the
+    path rules of store() read).  how='collections': loops that only collect become comprehensions (the form the
+    key-source evaluation of the accessors reads).  Line numbers are those of the original statements."""
+    import copy
+    from ..fa import FA
+    from ..loader import FuncInfo
+    fi = ck.fn(qual_or_fi) if isinstance(qual_or_fi, str) else qual_or_fi
+    memo = ck.__dict__.setdefault("_pm_views", {})
+    key = (fi.qual, id(fi.node), how, ck.exc_mode)
+    if key not in memo:
+        node = copy.deepcopy(fi.node)
+        _rewrite_blocks(node, _lower_stmt if how == "branches" else _raise_stmt)
+        if how == "branches":
+            node = _merge_parts(node)
+        changed = ast.dump(node) != ast.dump(fi.node)
+        inl = getattr(ck.repo, "inliner", None)
+        if changed and inl is not None and how == "branches":
+            # a new helper called from inside a comprehension could not be written out by the front end; now that the
+            # comprehension is a loop its call is the value of a statement and can be
+            try:
+                from ..inline import _all_names
+                inl.rewrite_block_owner(node, fi, _all_names(node), 0)
+                ast.fix_missing_locations(node)
+            except Exception:  # noqa
+                node = copy.deepcopy(fi.node)
+                _rewrite_blocks(node, _lower_stmt)
+        memo[key] = FuncInfo(fi.module, node, fi.qual, cls=fi.cls, parent=fi.parent) if changed else fi
+    return FA(ck, memo[key])
